@@ -92,6 +92,45 @@ def check(ctx):
                     "a block is freed only by the taker whose mark_slots_read saw the last used slot", pred_label="edge `mark_slots_read()` is true")
         ctx.mo_floor(Q + "::BlockPtr.0", ("compare_exchange", "compare_exchange_weak"), "ACQREL", fn + "/head-cas", "claims are ordered; the next block pointer is handed between takers", only_in=re.escape(fid))
         ctx.mo_floor(Q + "::BlockPtr.0", ("store",), "REL", fn + "/head-store", "next head published to other takers", only_in=re.escape(fid), min_sites=1)
+    # (seed C04-3) bit 63 of `head` is the "last slot of this block is being taken, head transition in progress" lock. A taker
+    # strips the bit from the value it EXPECTS in its CAS, so the CAS cannot succeed while the transition is in progress; a CAS
+    # that expects the raw, possibly locked value claims slot 63 a second time
+    for fn in ("pop", "local_pop", "bulk_pop"):
+        fid = Q + "::Queue::" + fn
+        f = ctx.fn("R-EXIT", fid, fn + "/cas-expects-unlocked-head")
+        if f is None: continue
+        cs = sorted(ctx.an.sites(f, Call(cas, on=Q + "::BlockPtr.0", transitive=False), "must"))
+        if not cs:
+            ctx.missing("R-EXIT", fid, fn + "/cas-expects-unlocked-head", "no CAS on head"); continue
+        def masked(o, depth=0):
+            o = simplify(o)
+            while o[0] == "cast": o = simplify(o[1])
+            return o[0] == "bin" and o[1] == "BitAnd" and any(x[0] == "un" and x[1] == "Not" for x in (simplify(o[2]), simplify(o[3])))
+        bad = None
+        for c in cs:
+            op = f.node(c)["args"][1]
+            pl = op.get("m") or op.get("c")
+            if pl is None or pl["p"]: bad = (c, "the expected operand is not a plain local"); break
+            l = pl["l"]
+            while True:     # follow single-def copies to the variable that carries `head` around the loop
+                ds = [d for d in f.defs().get(l, []) if not f.is_cleanup(d[0].bb)]
+                if len(ds) == 1 and ds[0][1] == "assign" and ds[0][2]["r"] == "use":
+                    o2 = ds[0][2]["o"]; p2 = o2.get("m") or o2.get("c")
+                    if p2 is not None and not p2["p"]: l = p2["l"]; continue
+                break
+            good = set(); other = []
+            for pt, kind, payload in ds:
+                o = trace_call(f, pt, payload, 0) if kind == "call" else trace_rvalue(f, payload, 0, pt)
+                (good.add(pt) if kind == "assign" and masked(o) else other.append(pt))
+            if not good:
+                bad = (c, "no definition of the expected value strips bit 63"); break
+            r = ctx.an.reach(f, [q for s in other for q in ctx.an.after(f, s)], blocked=good)
+            if c in r:
+                bad = (c, "a definition of the expected value at %s reaches the CAS without the `& !(1 << 63)` strip" % f.where([s for s in other][0])); break
+        ctx.ob("R-EXIT", fid, fn + "/cas-expects-unlocked-head", bad is None,
+               "the head CAS of %s always expects a value with the transition-lock bit (63) stripped" % fn if bad is None else
+               "%s: %s - the CAS can succeed while another taker holds the head transition lock: slot 63 of the block is claimed twice" % (fid, bad[1]),
+               f.where(cs[0]))
     for fn in ("pop", "bulk_pop"):
         fid = Q + "::Queue::" + fn
         f = ctx.prog.fn(fid)
